@@ -9,8 +9,8 @@ package rosmar
 // ---------------------------------------------------------------------------------------------------------------
 // Specification vocabulary (transcribed from the property statements, DESIGN.md appendix E)
 
-//@ spec DocInv(r) = !r.present || ((r.tombstone == 1 <==> isnull(r.value)) && (r.tombstone == 0 || r.tombstone == 1) && r.rev >= 1 && validX(r.xattrs) && r.cas >= 0 && r.exp >= 0 && r.exp <= 4294967295)
-//@ spec validX(x) = isnull(x) || (xok(x) && !xmapnil(x) && len(x) > 0)
+//@ spec DocInv(r) = !r.present || ((r.tombstone == 1 <==> isnull(r.value)) && (r.tombstone == 0 || r.tombstone == 1) && r.rev >= 1 && validX(r.xattrs) && r.cas >= 1 && (r.isJSON == 0 || r.isJSON == 1) && r.exp >= 0 && r.exp <= 4294967295)
+//@ spec validX(x) = isnull(x) || (xok(x) && len(x) > 0)
 //@ spec hasBody(r) = r.present && !isnull(r.value)
 //@ spec nextrev(r) = if r.present then r.rev + 1 else 1
 //@ spec sameDoc(a, b) = a.present == b.present && a.value == b.value && a.cas == b.cas && a.exp == b.exp && a.xattrs == b.xattrs && a.isJSON == b.isJSON && a.tombstone == b.tombstone && a.rev == b.rev
@@ -194,7 +194,7 @@ package rosmar
 //@   let r2 = doc(c.id, key)
 //@   let cur = if r.present then r.cas else 0
 //@   requires DocInv(r) && IntOK(r)
-//@   requires validX(xattrs) && newCas >= 0
+//@   requires validX(xattrs) && newCas >= 1
 //@   requires isDeletion <==> isnull(body)
 //@   ensures [C01:writeWithMeta.err-unchanged]   result != nil ==> db == old(db)
 //@   ensures [C08:writeWithMeta.err-noevent]     result != nil ==> lenlist(posted) == 0
@@ -485,17 +485,49 @@ package rosmar
 //@   modular
 //@   nullable mutateOpts
 //@
+//@ spec pnil(p) = isnull(p.raw) && isnull(p.parsed) && isnull(p.marshaled)
+//@ spec plainJSON(p) = !isnull(p.marshaled) && isnull(p.raw) && isnull(p.parsed)
+//@
 //@ fn (*Collection).writeWithXattrs
-//@   nullable val ifCas exp mutateOpts
+//@   nullable ifCas exp
+//@   variant keepbody val=nil
+//@   variant delbody  val=&{raw:nil,marshaled:nil,parsed:nil}
+//@   variant newbody  val=&{raw:nil,marshaled:nonnil,parsed:nil}
 //@   let r = old(doc(c.id, key))
 //@   let r2 = doc(c.id, key)
+//@   let cur = if r.present then r.cas else 0
+//@   let resurrect = r.present && r.tombstone == 1 && val != nil && !pnil(*val)
 //@   requires DocInv(r) && HlcInv(r) && IntOK(r)
 //@   requires !opts.preserveXattr && !opts.insertXattr
 //@   loop 1 invariant [C07:wwx.validate-loop] true
 //@   loop 1001 invariant [C07:wwx.preserve-loop] true
 //@   loop 1002 invariant [C07:wwx.apply-loop] true
-//@   ensures [C01:wwx.err-unchanged] err != nil ==> db == old(db)
-//@   ensures [C20:wwx.unlocked]      any: nolocks()
-//@
+//@   loop 1002 body [C07:wwx.one-xattr-per-step]  iter("mapupdate") + iter("mapdelete") <= 1
+//@   loop 1002 body [C07:wwx.macro-sees-new-cas]  iter("call:event.expandXattrMacros") == 1 ==> callrecv("event.expandXattrMacros").cas == newCas && callrecv("event.expandXattrMacros").key == key
+//@   loop 1002 body [C07:wwx.macro-sees-stored-body] iter("call:event.expandXattrMacros") == 1 && val != nil ==> (pnil(*val) ==> isnull(callrecv("event.expandXattrMacros").value)) && (plainJSON(*val) ==> callrecv("event.expandXattrMacros").value == val.marshaled)
+//@   loop 1002 body [C07:wwx.macro-keeps-body]    iter("call:event.expandXattrMacros") == 1 && val == nil ==> callrecv("event.expandXattrMacros").value == (if r.present then r.value else NULL)
+//@   ensures [C01,C07:wwx.err-unchanged]  err != nil ==> db == old(db)
+//@   ensures [C08:wwx.err-noevent]        err != nil ==> lenlist(posted) == 0
+//@   ensures [C05,C06:wwx.docinv]         DocInv(r2)
+//@   ensures [C11:wwx.frame]              forall o: DocId :: o != mkId(c.id, key) ==> docAt(o) == old(docAt(o))
+//@   ensures [C11:wwx.scoped]             stmtsScoped(c.id)
+//@   ensures [C03,C07,C10:wwx.onetxn]     oneTxn() && sqlAllInTxn() && lockedThroughout("c.bucket.mutex")
+//@   ensures [C10:wwx.commit-first]       err == nil ==> committed
+//@   ensures [C04,C07:wwx.cas-fresh]      err == nil ==> r2.cas == newCas && casOut == newCas && newCas > old(hlc.highestTime) && casDrawnInTxn()
+//@   ensures [C04,C10,C12:wwx.lastcas]    err == nil ==> bucketLastCas == newCas && collLast(c.id) == newCas
+//@   ensures [C17:wwx.rev]                err == nil ==> r2.rev == nextrev(r)
+//@   ensures [C08:wwx.event]              err == nil ==> lenlist(posted) == 1 && posted[0] == eventOf(key, r2) && postsAfterCommit()
+//@   ensures [C02:wwx.cas-necessary]      err == nil && ifCas != nil ==> *ifCas == cur
+//@   ensures [C02:wwx.cas-rejected]       ifCas != nil && *ifCas != cur ==> err != nil && db == old(db)
+//@   ensures [C02:wwx.cas-actual]         iscasmismatch(err) ==> err.Expected == *ifCas && err.Actual == cur
+//@   ensures [C06:wwx.insert-only-absent] err == nil && ifCas != nil && *ifCas == 0 ==> !r.present
+//@   ensures [C06:wwx.insertdoc-iff-nobody] opts.insertDoc && err == nil ==> !hasBody(r)
+//@   ensures [C06:wwx.insertdoc-refused]  opts.insertDoc && hasBody(r) ==> err != nil && db == old(db)
+//@   ensures [C01,C05,C07:wwx.body-deleted]  err == nil && val != nil && pnil(*val) ==> isnull(r2.value) && r2.isJSON == 0 && r2.tombstone == 1
+//@   ensures [C01,C05,C07:wwx.body-written]  err == nil && val != nil && plainJSON(*val) ==> r2.value == val.marshaled && r2.isJSON == 1 && r2.tombstone == 0
+//@   ensures [C01,C07:wwx.body-kept]      err == nil && val == nil ==> r2.value == (if r.present then r.value else NULL) && r2.isJSON == (if r.present then r.isJSON else 0)
+//@   ensures [C07,C14:wwx.expiry]         err == nil ==> r2.exp == (if exp != nil then absexp(*exp, now) else (if r.present then r.exp else 0))
+//@   ensures [C05:wwx.requires-existing]  opts.requireExistingDoc && !r.present ==> err != nil
+//@   ensures [C20:wwx.unlocked]           any: nolocks()
 //@ fn removeUserXattrs
 //@   loop 1 invariant [C05,C07:removeUserXattrs.loop] forall k: Str :: it[k] == (if visited[k] && !issys(k) then NOX else it0[k])
